@@ -2,14 +2,15 @@ from plans.common import *
 
 H = "harness/c19_once_ets.cpp"
 # one small leg for the known finding that is still open (C19-call-once-saturated-arena-deadlock): expected to print its KNOWN-FINDING line
-WIT = [det("witness-saturated-arena", H, "cs-rel", 1, 3, 2, time_cap=30, args=["--witness"])]
+WIT = [det("witness-saturated-arena", H, "cs-rel", 1, 3, 2, time_cap=30, args=["--witness"]),
+       det("witness-phantom-element", H, "cs-rel", 1, 3, 2, time_cap=30, args=["--witness-phantom"])]
 PLAN = dict(
     level="exploration",
     rule="case = (a) generated collaborative_call_once program: 2-6 external threads, 1-2 flags, calls made directly, inside task_arena::execute, from task_group "
          "tasks and from parallel_for bodies (workers become callers), the function takes generated work, runs a nested parallel_for (0-8 chunks) and throws on a "
          "generated subset of its first three attempts; or (b) generated enumerable_thread_specific<ets_no_key | ets_key_per_instance> / combinable program: 2-8 "
          "external threads (+ worker threads through a parallel_for) call local() / local(exists) 1-4 times each, 0-4 of them sequentially first (table pre-sized), "
-         "initialiser = default / finit / exemplar copy, then combine_each / iteration / range / size / combine at quiescence; x generated schedule (SC or TSO). "
+         "initialiser = default / finit / exemplar copy, then combine_each / iteration / range / size / combine at quiescence; or (c) element life cycle: 2-5 threads make their first accesses, one generated initialiser call throws (its caller gets the exception, its next local() must run the initialiser again and return a valid new element), then clear() by thread 0 at a barrier and every thread accesses again (new element, new initialiser call, exists=false); x generated schedule (SC or TSO). "
          "non-trivial = (a) at least two callers were inside collaborative_call_once on one flag while its function was executing; (b) at least two first accesses "
          "were in progress across one replacement of the table root (measured: raw my_root sampled at invocation and response of every local() call). "
          "distinct = hash of program text + schedule descriptor",
@@ -18,10 +19,11 @@ PLAN = dict(
                           "the once-function never calls collaborative_call_once on the same flag (documented deadlock)",
                           "known finding kept out of the default domain and counted (drive --witness generates it): a winner calling from inside a saturated task_arena spins for ever in ~collaborative_once_runner while its helper sleeps in task_arena::execute waiting for a slot; therefore at most slots-1 scenario threads call from inside the explicit arena, the others' arena calls are made directly",
                           "max_allowed_parallelism=1 is not combined with an explicit arena (counted as excluded; drive --witness-allot keeps it): task_arena(1,1) then trips the allotment assertion of market::update_allotment, a worker-budget finding outside this property",
+                          "known finding C19-ets-throwing-initialiser-phantom-element: after a throwing initialiser the never-constructed element stays in the container (size / iteration / combine_each include it); the surplus is counted as excluded outside the witness leg",
                           "the non-triviality statistic of the ETS variant reads ets_base::my_root through the object layout (vptr, my_root); verdicts never depend on it"],
     floor=dict(quick=500, thorough=12000),
     tiers=dict(
-        quick=[det("rel", H, "cs-rel", 16, 80, 4, tso=True, time_cap=28),
+        quick=[det("rel", H, "cs-rel", 16, 200, 4, tso=True, time_cap=40),
                det("dbg", H, "cs-dbg", 16, 32, 4, tso=True, time_cap=22),
                tsan("C19", 4, 80)] + WIT,
         thorough=[det("rel", H, "cs-rel", 16, 1500, 5, tso=True, time_cap=230),
